@@ -558,6 +558,48 @@ def rule_reader(ctx):
     ctx.ob(R, "stop at CLOSE", ok, "read_exact reads no further frame once close_received is set" if ok else "read_exact keeps reading after CLOSE: %s" % {k: sorted(v) for k, v in tab.items()}, r.loc())
     sets = [bi for bi, b in enumerate(r.blocks) for s in b["s"] if s["k"] == "assign" and [e.get("n") for e in s["p"].get("pr", []) if isinstance(e, dict)][-1:] == ["close_received"] and Tr.rvalue(s["r"]) == ("const", 1)]
     ctx.ob(R, "CLOSE recorded", bool(sets), "a CLOSE frame sets close_received" if sets else "CLOSE frames do not set close_received", r.loc())
+    # DATA arm: what is consumed from the frame is what was copied out; the unread rest of the frame is kept for the next
+    # read; read_exact returns before end-of-stream only with a full buffer
+    BUFQ = NET + "::noise::bytes::Buffer"
+    pushes = [c for c in Tr.calls() if c["q"] == BUFQ + "::push"]
+    tk = [c for c in Tr.calls() if c["q"] == BUFQ + "::take"]
+    ctx.floor(R, "push sites in read_exact", len(pushes), 1)
+    okc = bool(tk) and all(any(x[0] == "call" and x[1] == BUFQ + "::push" for x in subterms(Tr.args_of(c)[1])) for c in tk)
+    ctx.ob(R, "consumed = copied", okc, "data.take(buf.push(data.as_slice())): the frame loses exactly the bytes that were delivered" if okc else "the number of bytes removed from the frame is not the number copied into the caller's buffer", r.loc())
+
+    def m_len(a, b):
+        def ln(t):
+            return any(x[0] == "call" and x[1] == BUFQ + "::len" for x in subterms(t))
+        if ln(a) and b == ("const", 0):
+            return 1
+        if ln(b) and a == ("const", 0):
+            return -1
+        return 0
+
+    def m_cap(a, b):
+        def cp(t):
+            return any(x[0] == "call" and x[1] == BUFQ + "::capacity" for x in subterms(t))
+        if cp(a) and b == ("const", 0):
+            return 1
+        if cp(b) and a == ("const", 0):
+            return -1
+        return 0
+    W2 = Walker(ctx, r, [Atom("cmp(rest,0)", "cmp", m_len, ["=", ">"]), Atom("cmp(capacity,0)", "cmp", m_cap, ["=", ">"]), Atom("close_received", "bool", is_cr, [True, False], kills=["close_received"])])
+    keeps = [bi for bi, b in enumerate(r.blocks) for st in b["s"] if st["k"] == "assign" and [e.get("n") for e in st["p"].get("pr", []) if isinstance(e, dict)][-1:] == ["cache"] and Tr.rvalue(st["r"])[0] == "agg" and Tr.rvalue(st["r"])[2] == "Some"]
+    oksr = [bi for bi, b in enumerate(r.blocks) for st in b["s"] if st["k"] == "assign" and st["p"]["l"] in Q.ret_locals(r) and not st["p"].get("pr") and st["r"]["k"] == "agg" and st["r"].get("variant") == "Ok"]
+    if pushes:
+        pb = pushes[0]["bb"]
+        again = frozenset(recvs + takes)
+        res = {}
+        for rest in ("=", ">"):
+            for cap in ("=", ">"):
+                res[(rest, cap)] = W2.reachable({"cmp(rest,0)": rest, "cmp(capacity,0)": cap, "close_received": False}, pb, again)
+        okk = bool(keeps) and all(bool(set(keeps) & res[(">", c)]) for c in ("=", ">")) and not any(set(keeps) & res[("=", c)] for c in ("=", ">"))
+        ctx.ob(R, "unread rest of a DATA frame is kept", okk, "self.cache = Some(frame) exactly when bytes of the frame are left after filling the buffer" if okk else
+               "the rest of a partially consumed DATA frame is %s: bytes of the stream are lost or an empty frame is replayed" % ("not cached" if not keeps or not all(set(keeps) & res[(">", c)] for c in ("=", ">")) else "cached although nothing is left"), r.loc())
+        okr = bool(oksr) and all(bool(set(oksr) & res[(x, "=")]) for x in ("=", ">")) and not any(set(oksr) & res[(x, ">")] for x in ("=", ">"))
+        ctx.ob(R, "short read only at end of stream", okr, "after a DATA frame read_exact returns only when the buffer is full; otherwise it goes on to the next frame" if okr else
+               "read_exact can return Ok after a DATA frame although the buffer is not full and the stream has not ended (short read), or does not return when the buffer is full", r.loc())
 
 
 def rule_casts(ctx):
